@@ -30,6 +30,9 @@ func init() {
 	extendProp("C15", "(R15.13) what storeObject records as the original annotations is the live object's annotations minus the snapshot annotation and nothing else: restore replaces the whole map, so any other key left out is deleted from the user's object at the end of the release.", r6C15)
 	importProp("C05", "C15", map[string]string{"R15.13": "R5.14"}, "(R5.14 = C15 R15.13) the custom provider's restore gives back every annotation the object had.")
 	extendProp("C10", "(R10.12) isContinuousRelease / isRollingBackDirectly / isRollingBackInBatches answer false only for the reasons their definition enumerates (no release in progress, same revision, rollback flag, batch policy): any further exemption makes a superseding or reverted revision invisible to the dispatcher.", r6C10)
+	extendProp("C01", "(R1.12) in both step machines the pass that advances CurrentStepIndex ends without a further API write: the new step is acted on (BatchRelease written) only by a later pass, which starts from the persisted status.", r6C01)
+	extendProp("C20", "(R20.8) the four conversion methods return a non-nil error only on the branch where the hub object is not of the supported type: no value inside a schema-admitted object makes conversion fail.", r6C20)
+	extendProp("C16", "(R16.12) Encode returns exactly the bytes encoding/json produced (no textual post-processing of the marshalled form): whatever Decode produced from valid JSON encodes back to valid JSON.", r6C16)
 	extendProp("C08", "(R8.10) both admission handlers answer 'this workload is not selected by the webhook configuration' only after every entry and rule was examined (or the entry's selector cannot be parsed): the first entry whose rule matches does not decide alone.", r6C08)
 }
 
@@ -409,4 +412,129 @@ func r6C10(c *Ctx) {
 		c.Ob("R10.12", shortName(pr.name)+"#no-only-when", fn.Pos(), n > 0 && bad == "", "false only when "+pr.desc,
 			ifs(bad != "", bad+": a new revision (or a rollback) observed mid-release is then not treated as one — traffic is not taken back and the release is not restarted before the workload changes underneath it"))
 	}
+}
+
+// ---------------------------------------------------------------- C01 R1.12
+
+func r6C01(c *Ctx) {
+	p := c.Prog
+	c.Rule("R1.12", "a step advance is persisted before anything acts on it", 2)
+	isWrite := apiWrites(p)
+	for _, fn := range p.FuncsMatching("runCanary") {
+		if fn.Signature.Recv() == nil {
+			continue
+		}
+		n := 0
+		bad := ""
+		for _, st := range FieldStores([]*ssa.Function{fn}, "", "CurrentStepIndex") {
+			bo, ok := st.Val.(*ssa.BinOp)
+			if !ok || bo.Op != token.ADD {
+				continue
+			}
+			n++
+			if reach, at := CanReach(PointAfter(st), isWrite, ReachOpts{}); reach {
+				bad = "after the step index is advanced at " + p.Pos(st.Pos()) + " the same pass goes on to " + p.Pos(at.Pos()) + ", which writes to the cluster: the BatchRelease can be told to expose the next step's pods while the stored Rollout still shows the previous step (a lost status write or a crash leaves it that way)"
+			}
+		}
+		c.Ob("R1.12", FuncName(fn)+"#advance-then-return", fn.Pos(), n > 0 && bad == "", "the pass that advances the step index makes no API write afterwards", bad+ifs(n == 0, "no CurrentStepIndex++ found"))
+	}
+}
+
+// ---------------------------------------------------------------- C20 R20.8
+
+func r6C20(c *Ctx) {
+	p := c.Prog
+	c.Rule("R20.8", "conversion fails only for an unsupported hub type", 4)
+	for _, name := range []string{"api/v1alpha1.Rollout.ConvertTo", "api/v1alpha1.Rollout.ConvertFrom", "api/v1alpha1.BatchRelease.ConvertTo", "api/v1alpha1.BatchRelease.ConvertFrom"} {
+		fn := p.Func(name)
+		if fn == nil {
+			c.Unresolved("R20.8", name)
+			continue
+		}
+		failedAssert := func(b *ssa.BasicBlock, k int) bool {
+			if k != 1 || len(b.Instrs) == 0 {
+				return false
+			}
+			iff, ok := b.Instrs[len(b.Instrs)-1].(*ssa.If)
+			if !ok {
+				return false
+			}
+			ex, ok := iff.Cond.(*ssa.Extract)
+			if !ok || ex.Index != 1 {
+				return false
+			}
+			_, isTA := ex.Tuple.(*ssa.TypeAssert)
+			return isTA
+		}
+		errReturn := func(in ssa.Instruction) bool {
+			ret, ok := in.(*ssa.Return)
+			if !ok || len(ret.Results) != 1 || ret.Block() == fn.Recover {
+				return false
+			}
+			for _, lf := range Leaves(Forwarded(ret.Results[0]), ret.Block()) {
+				if k, isC := lf.V.(*ssa.Const); isC && k.IsNil() {
+					continue
+				}
+				return true
+			}
+			return false
+		}
+		reach, at := CanReach(Entry(fn), errReturn, ReachOpts{CutEdge: failedAssert})
+		n := 0
+		for _, b := range fn.Blocks {
+			for k := range b.Succs {
+				if failedAssert(b, k) {
+					n++
+				}
+			}
+		}
+		detail := ""
+		if reach {
+			detail = "the return at " + p.Pos(at.Pos()) + " can hand back an error for a hub object of the supported type: an object the schema admits (a stored value the webhook never saw) then cannot be read through this API version at all"
+		}
+		c.Ob("R20.8", name+"#fails-only-on-unsupported-type", fn.Pos(), n > 0 && !reach, "a non-nil error is returned only where the hub type assertion failed", detail+ifs(n == 0, "no type switch over the hub found"))
+	}
+}
+
+// ---------------------------------------------------------------- C16 R16.12
+
+func r6C16(c *Ctx) {
+	p := c.Prog
+	c.Rule("R16.12", "Encode hands back the marshaller's bytes unchanged", 1)
+	fn := p.Func("pkg/util/luamanager.Encode")
+	if fn == nil {
+		c.Unresolved("R16.12", "luamanager.Encode")
+		return
+	}
+	n := 0
+	bad := ""
+	for _, b := range fn.Blocks {
+		if len(b.Instrs) == 0 || b == fn.Recover {
+			continue
+		}
+		ret, ok := b.Instrs[len(b.Instrs)-1].(*ssa.Return)
+		if !ok || len(ret.Results) != 2 {
+			continue
+		}
+		for _, lf := range LeavesDeep(Forwarded(ret.Results[0]), b) {
+			if k, isC := lf.V.(*ssa.Const); isC && k.IsNil() {
+				continue
+			}
+			n++
+			okLeaf := false
+			v := lf.V
+			if ex, isEx := v.(*ssa.Extract); isEx && ex.Index == 0 {
+				v = ex.Tuple
+			}
+			if call, isCall := v.(*ssa.Call); isCall {
+				if g := call.Call.StaticCallee(); g != nil && g.Pkg != nil && g.Pkg.Pkg.Path() == "encoding/json" && (g.Name() == "Marshal" || g.Name() == "MarshalIndent") {
+					okLeaf = true
+				}
+			}
+			if !okLeaf {
+				bad = "the bytes returned at " + p.Pos(ret.Pos()) + " are " + TermOf(lf.V).String() + ", not the result of json.Marshal: rewriting marshalled text by pattern cannot tell an escape sequence from the same characters inside a string, so some value a script returns no longer decodes"
+			}
+		}
+	}
+	c.Ob("R16.12", "Encode#marshal-result-unchanged", fn.Pos(), n > 0 && bad == "", "what Encode returns is what encoding/json produced", bad+ifs(n == 0, "no returned value found"))
 }
